@@ -120,6 +120,11 @@ where
         let data = self.stream.buf_mut().take_chunk(self.remaining_data);
 
         match (data, end) {
+            // The stream ended inside the DATA payload (the cut fell on a chunk boundary): the frame
+            // is truncated. `usize::MAX` marks the unbounded payload of a WebTransport stream.
+            (None, true) if self.remaining_data != usize::MAX => {
+                Poll::Ready(Err(FrameStreamError::UnexpectedEnd))
+            }
             (None, true) => Poll::Ready(Ok(None)),
             (None, false) => Poll::Pending,
             (Some(d), true)
